@@ -24,7 +24,7 @@ members to typed unknowns true of the replaced part.
 import CtyModel.Props.C11
 import CtyModel.Lemmas.CoversWeaken
 import CtyModel.Lemmas.C12Funcs
-import CtyModel.Lemmas.d12bColl
+import CtyModel.Lemmas.d12bKeys
 namespace CtyModel
 namespace C12
 open Fn Std
@@ -430,6 +430,43 @@ theorem sound_distinct (E : Stdlib.Env) (o w r : Value) (hk : o.whollyKnown = tr
     (by simpa using C12L.whollyKnown_isKnown hk) (by simpa using hmo) (by simpa using hmw)
     (one_arg_cover hc) ⟨hty, trivial⟩ hrwf hrefl
     (fun hp _ => D12b.distinct_implSound E o w (D12b.ty_kept_of_passes_nodyn (spec := Stdlib.distinctSpec) rfl hp hty) hmw hmo hs hc) hr
+
+/-- same type, or `cty.DynamicVal` (an UNKNOWN of the placeholder type), position by position — the two
+constructors of `Weaken` (`TyKept` also lets the known null of the placeholder type through) -/
+def TyKeptU := D12b.TyKeptU
+
+/-- **`coalescelist`** (variadic, `AllowUnknown`, `AllowDynamicType`, `AllowNull`): the first non-empty list or
+tuple; an unknown argument met first gives the unknown of the predicted type (the placeholder when argument
+types differ or an argument is unknown); an argument known at the top is returned with its unknown members. -/
+theorem sound_coalescelist (os ws : List Value) (r : Value) (hk : ∀ a ∈ os, a.whollyKnown = true)
+    (hmo : ∀ a ∈ os, a.containsMarked = false) (hmw : ∀ a ∈ ws, a.containsMarked = false)
+    (hwf : ∀ a ∈ ws, Ty.wf a.ty = true)
+    (hcov : coversAll ws os = true) (hty : TyKeptU ws os) (hrwf : Ty.wf r.ty = true) (hrefl : Covers r r = true)
+    (hr : (callUnrefined Stdlib.coalesceListSpec Stdlib.coalesceListType Stdlib.coalesceListImpl os).1 = .ok r) :
+    ∃ r', (callUnrefined Stdlib.coalesceListSpec Stdlib.coalesceListType Stdlib.coalesceListImpl ws).1 = .ok r' ∧
+      Covers r' r = true :=
+  have hko : ∀ a ∈ os, a.isKnown = true := fun a ha => C12L.whollyKnown_isKnown (hk a ha)
+  impl_soundness_lifts_to_call _ _ _ os ws r
+    (fun _ => D12b.coalesceListType_mono hko hty (coversAll_length ws os hcov))
+    (fun _ ht => D12b.coalesceListType_wf hwf ht) hko hmo hmw hcov (D12b.TyKeptU.toTyKept hty) hrwf hrefl
+    (fun _ _ => D12b.coalescelist_implSound os ws hcov hty hko hmo hmw) hr
+
+/-- **`keys`** (`AllowUnknown`): an object's keys come from its type, known or not; a known map keeps its keys
+under weakening of its elements; an unknown map gives the unknown list of strings. -/
+theorem sound_keys (o w r : Value) (hk : o.whollyKnown = true) (hwf : Ty.wf w.ty = true)
+    (hmo : o.containsMarked = false) (hmw : w.containsMarked = false)
+    (hty : w.ty = o.ty ∨ w.ty.isDyn = true) (hc : CoversX w o = true)
+    (hrwf : Ty.wf r.ty = true) (hrefl : Covers r r = true)
+    (hr : (callUnrefined Stdlib.keysSpec Stdlib.keysType Stdlib.keysImpl [o]).1 = .ok r) :
+    ∃ r', (callUnrefined Stdlib.keysSpec Stdlib.keysType Stdlib.keysImpl [w]).1 = .ok r' ∧ Covers r' r = true :=
+  impl_soundness_lifts_to_call _ _ _ [o] [w] r
+    (fun hp => D12b.typeMonoAt_of_eq
+      (D12b.keysType_eq (D12b.ty_kept_of_passes_nodyn (spec := Stdlib.keysSpec) rfl hp hty)))
+    (fun _ ht => D12b.keysType_wf hwf ht)
+    (by simpa using C12L.whollyKnown_isKnown hk) (by simpa using hmo) (by simpa using hmw)
+    (one_arg_cover hc) ⟨hty, trivial⟩ hrwf hrefl
+    (fun hp _ => D12b.keys_implSound o w (D12b.ty_kept_of_passes_nodyn (spec := Stdlib.keysSpec) rfl hp hty)
+      hmw hmo (C12L.whollyKnown_isKnown hk) hc) hr
 
 /-! ### the hypotheses are satisfiable -/
 
